@@ -9,7 +9,7 @@ from ..runner import Property, Stream, Verdict
 
 PROFILE = {
     "max_attempts": 5,
-    "deadline": 0.2,
+    "deadline": 0.3,
     "abort": 0.2,
     "handler": 0.25,
     "budget": 0.15,
@@ -20,6 +20,7 @@ PROFILE = {
     "max_dur": 8,
     "max_delay_ticks": 16,
     "multi_call": (1, 4),
+    "handler_time": 0.3,
 }
 ENTRIES = [f"{a}Policy{v}.{m}" for a in ("", "Async") for v in ("", ".noretry") for m in ("call", "execute")] + ["Policy.context.call", "AsyncPolicy.context.call", "Policy.proxy.call", "AsyncPolicy.proxy.call", "Policy.proxy.execute", "AsyncPolicy.proxy.execute"]
 CANCEL_TYPES = ("KeyboardInterrupt", "SystemExit", "CancelledError", "GeneratorExit")
